@@ -208,6 +208,11 @@ func (cm *connectionManager) migrateRelayUsed(oldhostinfo, newhostinfo *HostInfo
 	relayFor := oldhostinfo.relayState.CopyAllRelayFor()
 
 	for _, r := range relayFor {
+		if r.Type == ForwardingType && !cm.intf.relayManager.GetAmRelay() {
+			// We are no longer configured as a relay, do not re-negotiate relays we would only forward for.
+			continue
+		}
+
 		existing, ok := newhostinfo.relayState.QueryRelayForByIp(r.PeerAddr)
 
 		var index uint32
